@@ -47,10 +47,13 @@ Qed.
    to that symbol - from every namespace u, under every stack of local frames *)
 Theorem C15_emitted_path_names_its_symbol :
   forall (is_ns : list string -> bool) (has : list string -> string -> bool) (inner : string -> bool)
-         (frames : list (string -> bool)) (u t : list string) (leaf : string),
+         (live : list string -> bool),
+    (* the namespaces that are written out include every namespace from which namespaces lead to a declaration *)
+    (forall n s r t' leaf', walk is_ns (n :: s) r = Some t' -> has t' leaf' = true -> live (n :: s) = true) ->
+    forall (frames : list (string -> bool)) (u t : list string) (leaf : string),
     ns_ok is_ns t = true -> has t leaf = true ->
     Forall (fun f : string -> bool => forall n, f n = true -> inner n = true) frames ->
-    resolve is_ns has frames u (emit is_ns has inner u t leaf) = Some (Declared t).
+    resolve is_ns has frames u (emit is_ns has inner live u t leaf) = Some (Declared t).
 Proof. exact emitted_path_resolves. Qed.
 
 (* non-vacuity: root f used from namespace A::B where A declares its own f needs the anchor; the path without it is
@@ -59,9 +62,14 @@ Example C15_path_example :
   let is_ns := fun p : list string => match p with ["A"] | ["B"; "A"] => true | _ => false end in
   let has := fun (p : list string) (n : string) => match p with [] | ["A"] => String.eqb n "f" | _ => false end in
   let inner := fun _ : string => false in
-  p_abs (emit is_ns has inner ["B"; "A"] [] "f") = true /\
-  resolve is_ns has [] ["B"; "A"] (emit is_ns has inner ["B"; "A"] [] "f") = Some (Declared []) /\
-  resolve is_ns has [] ["B"; "A"] (emit_relative [] "f") = Some (Declared ["A"]).
+  p_abs (emit is_ns has inner is_ns ["B"; "A"] [] "f") = true /\
+  resolve is_ns has [] ["B"; "A"] (emit is_ns has inner is_ns ["B"; "A"] [] "f") = Some (Declared []) /\
+  resolve is_ns has [] ["B"; "A"] (emit_relative [] "f") = Some (Declared ["A"]) /\
+  (* an empty namespace A::B::A is not written out: its name does not force the anchor on the root path A::f *)
+  (let is_ns2 := fun p : list string => match p with ["A"] | ["B"; "A"] | ["A"; "B"; "A"] => true | _ => false end in
+   let live2 := fun p : list string => match p with ["A"] => true | _ => false end in
+   p_abs (emit is_ns2 has inner live2 ["B"; "A"] ["A"] "f") = false /\
+   resolve is_ns2 has [] ["B"; "A"] (emit is_ns2 has inner live2 ["B"; "A"] ["A"] "f") = Some (Declared ["A"])).
 Proof. vm_compute. repeat split. Qed.
 
 (* ---- non-vacuity: overloads f,f next to a user symbol f_0, and a reserved name ---- *)
